@@ -596,6 +596,21 @@ class _SubstNames(ast.NodeTransformer):
         return node
 
 
+def _fold_guard_continues(body: List[ast.stmt]) -> List[ast.stmt]:
+    """`if c: continue; REST`  ->  `if not c: REST`  (guard clauses at the top level of a loop body)"""
+    for i, st in enumerate(body):
+        if isinstance(st, ast.If) and not st.orelse and len(st.body) == 1 and isinstance(st.body[0], ast.Continue):
+            rest = _fold_guard_continues(body[i + 1:])
+            if not rest:
+                return body[:i] + [ast.copy_location(ast.Expr(value=st.test), st)]
+            neg = st.test.operand if isinstance(st.test, ast.UnaryOp) and isinstance(st.test.op, ast.Not) else ast.UnaryOp(op=ast.Not(), operand=st.test)
+            new = ast.If(test=neg, body=rest, orelse=[])
+            ast.copy_location(new, st)
+            ast.fix_missing_locations(new)
+            return body[:i] + [new]
+    return body
+
+
 def _unroll_in_list(stmts: List[ast.stmt]) -> int:
     n = 0
     i = 0
@@ -615,6 +630,7 @@ def _unroll_in_list(stmts: List[ast.stmt]) -> int:
                 and isinstance(s.iter, (ast.Tuple, ast.List)) and 1 <= len(s.iter.elts) <= 24
                 and all(isinstance(r, (ast.Tuple, ast.List)) and len(r.elts) == len(s.target.elts) and not any(isinstance(e, ast.Starred) for e in r.elts) for r in s.iter.elts)):
             names = [t.id for t in s.target.elts]
+            s.body = _fold_guard_continues(s.body)
             body_nodes = [x for st in s.body for x in ast.walk(st)]
             simple = not any(isinstance(x, (ast.Break, ast.Continue, ast.Return, ast.Yield, ast.YieldFrom, ast.FunctionDef, ast.Lambda)) for x in body_nodes)
             stores = any(isinstance(x, ast.Name) and x.id in names and not isinstance(x.ctx, ast.Load) for x in body_nodes)
